@@ -12,9 +12,9 @@
       other requests are, and no packet carries its id (`parse_error_falsy`, `parse_error_falsy_write`,
       `parse_error_no_packet_read`, `parse_error_no_packet_write`, `build_skips_failed_*`);
     * `Tag.__bool__` (`ltag_truthy_iff`);
-    * where an exception of `read` can come from (`read_error_sources`, `read_error_classes`,
-      `parsed_elements_range`) — and the one request shape for which the parser's range check does not protect the
-      call: a BOOL-array element with a huge index (`-- STATEMENT CHANGED` below).
+    * where an exception of `read` / `write` can come from (`read_error_sources`, `read_error_classes`,
+      `write_error_sources`, `parsed_elements_range`, `parsed_bool_index_nonneg`, `accepted_request_path_error`); the history of the one request shape that used to escape
+      the parser's range check (a BOOL-array element with a huge index) is under `-- STATEMENT CHANGED` below.
 -/
 import PycommProofs.LDShape
 namespace Pycomm.Lgx.Drv
@@ -41,6 +41,31 @@ def exWorld : Cli.World Unit :=
     net := { target := { base := { identity := exIdentity, plcName := [] }, ext := () }, tcpOpen := true } }
 
 def exHook : ObjHook Unit := fun _ _ _ => none
+
+/-- a controller project with the two tags: `x` = 7, `d` = 128 bits, all 0 -/
+def exProject : Lgx.Project :=
+  { templates := [],
+    controller := [
+      { inst := 1, name := nm "x", symbolType := 0xC4, dims := [0, 0, 0], attr3 := 0, attr5 := 0, attr6 := 0x04000000,
+        access := 0, mem := [7, 0, 0, 0] },
+      { inst := 2, name := nm "d", symbolType := 0x20D3, dims := [4, 0, 0], attr3 := 0, attr5 := 0, attr6 := 0x04000000,
+        access := 0, mem := List.replicate 16 0 }],
+    programs := [] }
+
+def exLogixHook : ObjHook Lgx.LState := fun t cs req =>
+  match Lgx.logixService t.ext req cs with
+  | none => none
+  | some (st', r) => some ({ t with ext := st' }, r)
+
+/-- the driver connected (session 1, one large class-3 connection) to the reference controller holding `exProject` -/
+def exLiveWorld : Cli.World Lgx.LState :=
+  { drv := { hasSock := true, session := some 1, connectionOpened := true, targetCid := some [1, 2, 3, 4],
+             targetIsConnected := true },
+    net := { target := { base := { identity := exIdentity, plcName := [], sessions := [1],
+                                   conns := [{ cid := 0x04030201, toId := 0x71190427, session := 1, size := 4002,
+                                               large := true, serial := 0x0427, vendor := 0x1009,
+                                               origSerial := 0x71191009, lastSeq := none, route := [] }] },
+                         ext := { proj := exProject } }, tcpOpen := true } }
 
 -- PROPERTY THEOREMS
 
@@ -212,7 +237,7 @@ theorem read_result_names {σ} (hook : ObjHook σ) (cfg : Cfg) (w w' : Cli.World
     and the table of responses -/
 theorem write_result_eq {σ} (hook : ObjHook σ) (cfg : Cfg) (w w' : Cli.World σ) (tvs : List (Name × PyVal))
     (res : List LTag) (h : write hook cfg w tvs = (w', .ok res)) :
-    ∃ (ps' : List Parsed) (rs : Results), ps'.length = tvs.length ∧
+    ∃ (ps' : List Drv.Parsed) (rs : Results), ps'.length = tvs.length ∧
       ∀ (i : Nat) (hi : i < tvs.length) (hp : i < ps'.length) (hr : i < res.length),
         lds_Stable { parseTagRequest cfg.tags true i tvs[i].1 with value := tvs[i].2 } ps'[i] ∧
         res[i] = writeResult ps'[i] rs := by
@@ -283,7 +308,7 @@ theorem parse_error_text (db : TagDb) (rw : Bool) (i : Nat) (t : Name) (e : TagE
   (lds_parse_err db rw i t e h).2
 
 /-- `readResult` / `writeResult` of a rejected request ignore the table of responses entirely -/
-theorem result_of_failed_ignores_table (p : Parsed) (e : TagErr) (h : p.error = some e) (rs rs' : Results) :
+theorem result_of_failed_ignores_table (p : Drv.Parsed) (e : TagErr) (h : p.error = some e) (rs rs' : Results) :
     readResult p rs = readResult p rs' ∧ writeResult p rs = writeResult p rs' := by
   rw [lds_readResult_err p rs e h, lds_readResult_err p rs' e h, lds_writeResult_err p rs e h,
     lds_writeResult_err p rs' e h]
@@ -339,7 +364,7 @@ example : ∃ s, TagErr.text (nm "Invalid bit number for a DINT: 40") = .text s 
     string and that error, and the error is a non-empty text -/
 theorem write_request_error_falsy {σ} (hook : ObjHook σ) (cfg : Cfg) (w w' : Cli.World σ) (tvs : List (Name × PyVal))
     (res : List LTag) (h : write hook cfg w tvs = (w', .ok res)) :
-    ∃ (ps' : List Parsed) (rs : Results), ps'.length = tvs.length ∧
+    ∃ (ps' : List Drv.Parsed) (rs : Results), ps'.length = tvs.length ∧
       ∀ (i : Nat) (hi : i < tvs.length) (hp : i < ps'.length) (hr : i < res.length),
         res[i] = writeResult ps'[i] rs ∧
         ∀ e, ps'[i].error = some e →
@@ -381,7 +406,7 @@ theorem parse_error_no_packet_read (cfg : Cfg) (d d' : Cli.Drv) (tags : List Nam
   rw [he] at hpe; cases hpe
 
 /-- `_write_build_requests`: the same, bit requests folded into Read-Modify-Write packets included -/
-theorem parse_error_no_packet_write (cfg : Cfg) (d d' : Cli.Drv) (tvs : List (Name × PyVal)) (ps' : List Parsed)
+theorem parse_error_no_packet_write (cfg : Cfg) (d d' : Cli.Drv) (tvs : List (Name × PyVal)) (ps' : List Drv.Parsed)
     (reqs : List Request)
     (hb : writeBuildRequests cfg d (lds_wparse cfg.tags tvs) = (d', .ok (ps', reqs)))
     (i : Nat) (hi : i < tvs.length) (e : TagErr) (he : (parseTagRequest cfg.tags true i tvs[i].1).error = some e) :
@@ -420,11 +445,11 @@ theorem read_sends_nothing_for_failed {σ} (hook : ObjHook σ) (cfg : Cfg) (w w'
 
 /-- the request loops of the builders skip a rejected request: they build exactly what they build for the list
     without the rejected requests (the ids of the others unchanged) -/
-theorem build_skips_failed_read (cfg : Cfg) (C : Nat) (multi : Bool) (d : Cli.Drv) (ps : List Parsed) :
+theorem build_skips_failed_read (cfg : Cfg) (C : Nat) (multi : Bool) (d : Cli.Drv) (ps : List Drv.Parsed) :
     readBuildLive cfg C multi d ps = readBuildLive cfg C multi d (ps.filter fun p => p.error.isNone) :=
   lds_readBuildLive_filter cfg C multi ps d
 
-theorem build_skips_failed_write (cfg : Cfg) (C : Nat) (d : Cli.Drv) (acc : WriteBuild) (accs ps : List Parsed) :
+theorem build_skips_failed_write (cfg : Cfg) (C : Nat) (d : Cli.Drv) (acc : WriteBuild) (accs ps : List Drv.Parsed) :
     writeBuildLive cfg C d acc ps = writeBuildLive cfg C d acc (ps.filter fun p => p.error.isNone) ∧
     writeBuildSingles cfg C d accs ps = writeBuildSingles cfg C d accs (ps.filter fun p => p.error.isNone) :=
   ⟨lds_writeBuildLive_filter cfg C ps d acc, lds_writeBuildSingles_filter cfg C ps d accs⟩
@@ -438,45 +463,76 @@ example : ((readBuildRequests exCfg exWorld.drv (parseRequestedTags exDb false [
 
 /-! ## 6. When `read` raises -/
 
-/-- after the parser's range check the element count of an accepted request fits the UINT of the request
-    (`elementsNat` cannot fail) — unless the request addresses a BOOL array (DWORD tag) with an explicit index -/
-theorem parsed_elements_range (db : TagDb) (rw : Bool) (i : Nat) (t : Name) (info : TagInfo)
-    (he : (parseTagRequest db rw i t).error = none) (hi : (parseTagRequest db rw i t).info = some info)
-    (hd : isDword info = false ∨ (parseTagRequest db rw i t).bit = none) :
+/-- the element count of every accepted request fits the UINT of the request (`elementsNat` cannot fail): a plain
+    request by the range check of its `{n}` suffix, a BOOL-array request (DWORD tag) by the check of its word count,
+    its index being a non-negative number by the index validation -/
+theorem parsed_elements_range (db : TagDb) (rw : Bool) (i : Nat) (t : Name)
+    (he : (parseTagRequest db rw i t).error = none) :
     0 ≤ (parseTagRequest db rw i t).elements ∧ (parseTagRequest db rw i t).elements ≤ 65535 ∧
     elementsNat (parseTagRequest db rw i t).elements = .ok (parseTagRequest db rw i t).elements.toNat := by
-  obtain ⟨tag, n, impl, info', hok⟩ := lds_parse_ok db rw i t he
-  have : info' = info := by rw [hok.hinfo] at hi; exact Option.some.inj hi
-  subst this
-  have hr := lds_POk_elements_range t _ tag n impl info' hok hd
+  obtain ⟨tag, n, impl, info, hok⟩ := lds_parse_ok db rw i t he
+  have hr := lds_POk_elements_range t _ tag n impl info hok
   refine ⟨hr.1, hr.2, ?_⟩
   unfold elementsNat; rw [if_pos hr]
 
--- STATEMENT CHANGED: "`elementsNat` out of range cannot happen after the parser's range check" is false of the
--- model for a BOOL-array request with an explicit index: the parser checks the `{n}` count only, the request then
--- carries `(index + n) / 32` (rounded up) DWORDs, and an index ≥ 65535 * 32 = 2097120 pushes that past 65535.
--- `UINT.encode` raises while the packet is built and the exception leaves `read`, taking the other requests of
--- the call with it. Counterexample (`exDb`: DINT `x`, BOOL array `d`):
---   #eval (parseTagRequest exDb false 0 (nm "d[2097152]")).elements          -- 65537, error = none
---   #eval (read exHook exCfg exWorld [nm "x", nm "d[2097152]"]).2            -- Except.error Exn.data
--- The corrected statements are `parsed_elements_range` (every other accepted request is in range) and the fourth
--- disjunct of `read_error_sources`.
-example : (parseTagRequest exDb false 0 (nm "d[2097152]")).error = none ∧
-    (parseTagRequest exDb false 0 (nm "d[2097152]")).elements = 65537 := by exact ⟨rfl, rfl⟩
-example : (read exHook exCfg exWorld [nm "d[2097152]"]).2 = .error .data := by rfl
-example : (read exHook exCfg exWorld [nm "x", nm "d[2097152]"]).2 = .error .data := by rfl
+/-- the index of an accepted BOOL-array request is not negative -/
+theorem parsed_bool_index_nonneg (db : TagDb) (rw : Bool) (i : Nat) (t : Name) (info : TagInfo) (idx : Int)
+    (he : (parseTagRequest db rw i t).error = none) (hi : (parseTagRequest db rw i t).info = some info)
+    (hd : isDword info = true) (hb : (parseTagRequest db rw i t).bit = some idx) : 0 ≤ idx := by
+  obtain ⟨tag, n, impl, info', hok⟩ := lds_parse_ok db rw i t he
+  have : info' = info := by rw [hok.hinfo] at hi; exact Option.some.inj hi
+  subst this
+  have := lds_POk_idx_nonneg t _ tag n impl info' hok hd
+  rw [hb] at this; simpa using this
+
+-- STATEMENT CHANGED: "`elementsNat` out of range cannot happen after the parser's range check" was false of the
+-- model (and of the library) before the repair af92872 of the library: the parser checked the `{n}` count only, a
+-- BOOL-array request then carried `(index + n) / 32` (rounded up) DWORDs, and an index ≥ 65535 * 32 = 2097120
+-- pushed that past 65535; `UINT.encode` raised while the packet was built and the exception left `read`, taking the
+-- other requests of the call with it. Counterexample at the time (`exDb`: DINT `x`, BOOL array `d`):
+--   (parseTagRequest exDb false 0 (nm "d[2097152]")).elements = 65537 with error = none
+--   (read exHook exCfg exWorld [nm "x", nm "d[2097152]"]).2 = Except.error Exn.data
+-- The repaired parser rejects such a request ("Array index out of range: …"); `parsed_elements_range` now holds
+-- for every accepted request and `read_error_sources` has no element-count disjunct any more.
+example : (parseTagRequest exDb false 0 (nm "d[2097152]")).error =
+    some (.text (nm "Array index out of range: 2097152")) := by rfl
+example : (read exHook exCfg exWorld [nm "d[2097152]"]).2 =
+    .ok [{ tag := nm "d[2097152]", value := .none, type := none,
+           error := some (.text (nm "Array index out of range: 2097152")) }] := by rfl
+/-- the other request of the call is answered: two Tags, the first one the value of `x` -/
+example : (read exLogixHook exCfg exLiveWorld [nm "x", nm "d[2097152]"]).2 =
+    .ok [{ tag := nm "x", value := .int 7, type := some (nm "DINT"), error := none },
+         { tag := nm "d[2097152]", value := .none, type := none,
+           error := some (.text (nm "Array index out of range: 2097152")) }] := by rfl
+/-- the largest index the word count allows: 65535 DWORDs -/
+example : (parseTagRequest exDb false 0 (nm "d[2097119]")).error = none ∧
+    (parseTagRequest exDb false 0 (nm "d[2097119]")).elements = 65535 := ⟨rfl, rfl⟩
 example : (parseTagRequest exDb false 0 (nm "x{3}")).elements = 3 ∧
     elementsNat (parseTagRequest exDb false 0 (nm "x{3}")).elements = .ok 3 :=
-  ⟨rfl, (parsed_elements_range exDb false 0 (nm "x{3}") _ (by rfl) (by rfl) (.inl (by rfl))).2.2⟩
+  ⟨rfl, (parsed_elements_range exDb false 0 (nm "x{3}") (by rfl)).2.2⟩
+example : (0 : Int) ≤ 5 :=
+  parsed_bool_index_nonneg exDb false 0 (nm "d[5]") _ 5 (by rfl) (by rfl) (by rfl) (by rfl)
+
+/-- building the request path of an accepted request raises a DataError at most (a name longer than 255 bytes or a
+    path longer than 510 bytes): the ValueError of `int()` on an index is excluded by the index validation of the
+    parser, `tag_request_path` never returns None -/
+theorem accepted_request_path_error (cfg : Cfg) (db : TagDb) (rw : Bool) (i : Nat) (t : Name) (info : TagInfo) (e : Exn)
+    (he : (parseTagRequest db rw i t).error = none)
+    (h : requestPathOf cfg (parseTagRequest db rw i t).plcTag info = .error e) : e = .data :=
+  lds_requestPathOf_fine cfg _ info e (lds_parse_plc_fine db rw i t he) h
+
+example : ∃ v, requestPathOf exCfg (parseTagRequest exDb true 0 (nm "d[37]")).plcTag
+    (.mk { tagType := .atomic, dataTypeName := nm "DWORD", ty := .arr (.fixed 4) (.bits .udint) } .nil) = .ok v :=
+  ⟨_, rfl⟩
+example : (parseTagRequest exDb true 0 (nm "d[37]")).plcTag = nm "d[1]" := by rfl
 
 /-- every way `read` can raise:
     1. the `@with_forward_open` decorator fails (`ensureForwardOpen`);
     2. no request at all: `results[0]` of the empty list;
-    3. building the request path of an accepted request fails (`tag_request_path`);
-    4. an accepted BOOL-array request with an explicit index whose DWORD count does not fit a UINT;
-    5. sending: the transport (`CIPDriver.send`), the fuel of the fragmented-read loop, or `response.error` raising
+    3. building the request path of an accepted request fails (`tag_request_path`), with a DataError;
+    4. sending: the transport (`CIPDriver.send`), the fuel of the fragmented-read loop, or `response.error` raising
        on a failed reply (`lds_SendErr`).
-    In particular no parse failure and no error status of the controller raises. -/
+    In particular no parse failure, no element count and no error status of the controller raises. -/
 theorem read_error_sources {σ} (hook : ObjHook σ) (cfg : Cfg) (w w' : Cli.World σ) (tags : List Name) (e : Exn)
     (h : read hook cfg w tags = (w', .error e)) :
     (∃ w0, Cli.ensureForwardOpen hook Cli.FUEL w = (w0, .error e)) ∨
@@ -484,13 +540,7 @@ theorem read_error_sources {σ} (hook : ObjHook σ) (cfg : Cfg) (w w' : Cli.Worl
     (∃ (i : Nat) (hi : i < tags.length) (info : TagInfo),
       (parseTagRequest cfg.tags false i tags[i]).error = none ∧
       (parseTagRequest cfg.tags false i tags[i]).info = some info ∧
-      requestPathOf cfg (parseTagRequest cfg.tags false i tags[i]).plcTag info = .error e) ∨
-    (∃ (i : Nat) (hi : i < tags.length) (info : TagInfo) (idx : Int),
-      (parseTagRequest cfg.tags false i tags[i]).error = none ∧
-      (parseTagRequest cfg.tags false i tags[i]).info = some info ∧ isDword info = true ∧
-      (parseTagRequest cfg.tags false i tags[i]).bit = some idx ∧
-      ¬ (0 ≤ (parseTagRequest cfg.tags false i tags[i]).elements ∧
-          (parseTagRequest cfg.tags false i tags[i]).elements ≤ 65535) ∧ e = .data) ∨
+      requestPathOf cfg (parseTagRequest cfg.tags false i tags[i]).plcTag info = .error e ∧ e = .data) ∨
     lds_SendErr hook e := by
   unfold read at h
   generalize Cli.ensureForwardOpen hook Cli.FUEL w = r at h ⊢
@@ -515,19 +565,9 @@ theorem read_error_sources {σ} (hook : ObjHook σ) (cfg : Cfg) (w w' : Cli.Worl
       have hj' : j < tags.length := by rw [lds_parse_length] at hj; exact hj
       rw [lds_parse_getElem cfg.tags false tags j hj'] at hpe hpi herr
       rcases herr with herr | herr
-      · exact .inr (.inr (.inl ⟨j, hj', info, hpe, hpi, herr⟩))
-      · refine .inr (.inr (.inr (.inl ?_)))
-        have hrange : ¬ (0 ≤ (parseTagRequest cfg.tags false j tags[j]).elements ∧
-            (parseTagRequest cfg.tags false j tags[j]).elements ≤ 65535) := by
-          intro hr; unfold elementsNat at herr; rw [if_pos hr] at herr; cases herr
-        have hdata : e' = .data := by
-          unfold elementsNat at herr; rw [if_neg hrange] at herr; cases herr; rfl
-        cases hd : isDword info with
-        | false => exact absurd (parsed_elements_range _ _ _ _ info hpe hpi (.inl hd)) (fun h' => hrange ⟨h'.1, h'.2.1⟩)
-        | true =>
-          cases hbit : (parseTagRequest cfg.tags false j tags[j]).bit with
-          | none => exact absurd (parsed_elements_range _ _ _ _ info hpe hpi (.inr hbit)) (fun h' => hrange ⟨h'.1, h'.2.1⟩)
-          | some idx => exact ⟨j, hj', info, idx, hpe, hpi, hd, hbit, hrange, hdata⟩
+      · exact .inr (.inr (.inl ⟨j, hj', info, hpe, hpi, herr,
+          accepted_request_path_error cfg _ _ _ _ info _ hpe herr⟩))
+      · rw [(parsed_elements_range _ _ _ _ hpe).2.2] at herr; cases herr
     | ok reqs =>
       dsimp only at h
       rcases hs : sendRequests hook { w0 with drv := d1 } [] reqs with ⟨w2, rs⟩
@@ -537,8 +577,8 @@ theorem read_error_sources {σ} (hook : ObjHook σ) (cfg : Cfg) (w w' : Cli.Worl
       | error e' =>
         simp only [Prod.mk.injEq, Except.error.injEq] at h
         obtain ⟨_, rfl⟩ := h
-        exact .inr (.inr (.inr (.inr (lds_sendRequests_read_err hook reqs _ _ _ _
-          (fun q hq => (lds_readBuild_carried cfg _ _ _ _ hb q hq).1) hs))))
+        exact .inr (.inr (.inr (lds_sendRequests_read_err hook reqs _ _ _ _
+          (fun q hq => (lds_readBuild_carried cfg _ _ _ _ hb q hq).1) hs)))
       | ok rs =>
         dsimp only at h
         split at h
@@ -548,18 +588,13 @@ theorem read_error_sources {σ} (hook : ObjHook σ) (cfg : Cfg) (w w' : Cli.Worl
         · cases h
 
 /-- the exception classes of `read`: the library's CommError / DataError / BufferEmptyError / ResponseError /
-    RequestError, the fuel marker of the model, the IndexError of a call without requests and the ValueError of
-    `int()` in `tag_request_path` -/
+    RequestError, the fuel marker of the model, and the IndexError of a call without requests -/
 theorem read_error_classes {σ} (hook : ObjHook σ) (cfg : Cfg) (w w' : Cli.World σ) (tags : List Name) (e : Exn)
     (h : read hook cfg w tags = (w', .error e)) :
-    Cli.LcLib e ∨ e = .hang ∨ (tags = [] ∧ e = .foreign "IndexError") ∨ e = .foreign "ValueError" := by
-  rcases read_error_sources hook cfg w w' tags e h with ⟨w0, h0⟩ | ⟨h1, h2⟩ | ⟨i, hi, info, _, _, hp⟩ |
-    ⟨_, _, _, _, _, _, _, _, _, rfl⟩ | hs
+    Cli.LcLib e ∨ e = .hang ∨ (tags = [] ∧ e = .foreign "IndexError") := by
+  rcases read_error_sources hook cfg w w' tags e h with ⟨w0, h0⟩ | ⟨h1, h2⟩ | ⟨i, hi, info, _, _, _, rfl⟩ | hs
   · exact .inl (Cli.lc_efo_lib hook 5 w e (by rw [show (5 + 3 : Nat) = Cli.FUEL from rfl, h0]))
-  · exact .inr (.inr (.inl ⟨h1, h2⟩))
-  · rcases lds_requestPathOf_err cfg _ info e hp with rfl | rfl
-    · exact .inl Cli.lc_lib_data
-    · exact .inr (.inr (.inr rfl))
+  · exact .inr (.inr ⟨h1, h2⟩)
   · exact .inl Cli.lc_lib_data
   · rcases lds_SendErr_class hook e hs with rfl | rfl | rfl | rfl
     · exact .inl Cli.lc_lib_comm
@@ -569,9 +604,113 @@ theorem read_error_classes {σ} (hook : ObjHook σ) (cfg : Cfg) (w w' : Cli.Worl
 
 example : ∀ w', read exHook exCfg exWorld [] = (w', .error (.foreign "IndexError")) →
     Cli.LcLib (.foreign "IndexError") ∨ Exn.foreign "IndexError" = .hang ∨
-      (([] : List Name) = [] ∧ Exn.foreign "IndexError" = .foreign "IndexError") ∨
-      Exn.foreign "IndexError" = .foreign "ValueError" :=
+      (([] : List Name) = [] ∧ Exn.foreign "IndexError" = .foreign "IndexError") :=
   fun w' h => read_error_classes exHook exCfg exWorld w' [] _ h
 example : (read exHook exCfg exWorld []).2 = .error (.foreign "IndexError") := by rfl
+
+/-! ## 6'. When `write` raises -/
+
+/-- every way `write` can raise:
+    1. the `@with_forward_open` decorator fails;
+    2. no (tag, value) pair at all: `results[0]` of the empty list;
+    3. building the request path of an accepted request fails (`tag_request_path`), with a DataError;
+    4. sending the built packets `reqs`: the transport / `response.error` (`lds_SendErr`, no fuel is involved for
+       writes but the disjunct is shared with `read`), `ULINT.encode` of the masks of a Read-Modify-Write packet
+       (`rmwMessage`), or the foreign exceptions of `_send_write_fragmented` on an empty value / a connection too
+       small for one segment (`lds_FragSizeErr`);
+    5. the result of a Read-Modify-Write packet is missing from the table (`write_results.pop`: KeyError).
+    In particular no parse failure, no value that cannot be encoded, no element count, no missing `DataTypes` entry
+    of a bit request and no error status of the controller raises. -/
+theorem write_error_sources {σ} (hook : ObjHook σ) (cfg : Cfg) (w w' : Cli.World σ) (tvs : List (Name × PyVal)) (e : Exn)
+    (h : write hook cfg w tvs = (w', .error e)) :
+    (∃ w0, Cli.ensureForwardOpen hook Cli.FUEL w = (w0, .error e)) ∨
+    (tvs = [] ∧ e = .foreign "IndexError") ∨
+    (∃ (i : Nat) (hi : i < tvs.length) (info : TagInfo),
+      (parseTagRequest cfg.tags true i tvs[i].1).error = none ∧
+      (parseTagRequest cfg.tags true i tvs[i].1).info = some info ∧
+      requestPathOf cfg (parseTagRequest cfg.tags true i tvs[i].1).plcTag info = .error e ∧ e = .data) ∨
+    (∃ w0 u d1 ps' reqs,
+      Cli.ensureForwardOpen hook Cli.FUEL w = (w0, .ok u) ∧
+      writeBuildRequests cfg w0.drv (lds_wparse cfg.tags tvs) = (d1, .ok (ps', reqs)) ∧
+      (lds_WSendErr hook reqs e ∨
+       (e = .foreign "KeyError" ∧ ∃ w2 rs, sendRequests hook { w0 with drv := d1 } [] reqs = (w2, .ok rs) ∧
+          fanOutRmw rs reqs = none))) := by
+  unfold write at h
+  generalize Cli.ensureForwardOpen hook Cli.FUEL w = r at h ⊢
+  obtain ⟨w0, pre⟩ := r
+  dsimp only at h
+  cases pre with
+  | error e' =>
+    simp only [Prod.mk.injEq, Except.error.injEq] at h
+    obtain ⟨_, rfl⟩ := h
+    exact .inl ⟨w0, rfl⟩
+  | ok u =>
+    dsimp only at h
+    rcases hb : writeBuildRequests cfg w0.drv (lds_wparse cfg.tags tvs) with ⟨d1, built⟩
+    have hb' := hb
+    unfold lds_wparse at hb
+    rw [hb] at h
+    dsimp only at h
+    cases built with
+    | error e' =>
+      simp only [Prod.mk.injEq, Except.error.injEq] at h
+      obtain ⟨_, rfl⟩ := h
+      obtain ⟨p, hp, hpe, info, hpi, herr⟩ := lds_writeBuild_err cfg _ _ _ _ hb'
+      obtain ⟨j, hj, rfl⟩ := List.getElem_of_mem hp
+      have hj' : j < tvs.length := by rw [lds_wparse_length] at hj; exact hj
+      rw [lds_wparse_getElem cfg.tags tvs j hj'] at hpe hpi herr
+      have hpe' : (parseTagRequest cfg.tags true j tvs[j].1).error = none := hpe
+      obtain ⟨tag, n, impl, info', hok⟩ := lds_parse_ok cfg.tags true j tvs[j].1 hpe'
+      have hok' := lds_POk_value _ _ tag n impl info' tvs[j].2 hok
+      have hinfo : info' = info := by
+        have := hok'.hinfo; rw [hpi] at this; exact (Option.some.inj this).symm
+      subst hinfo
+      rcases herr with herr | ⟨hbit, hent⟩ | herr
+      · exact .inr (.inr (.inl ⟨j, hj', info', hpe', hpi, herr,
+          accepted_request_path_error cfg _ _ _ _ info' _ hpe' herr⟩))
+      · exfalso
+        cases hbv : (parseTagRequest cfg.tags true j tvs[j].1).bit with
+        | none =>
+          have : ({ parseTagRequest cfg.tags true j tvs[j].1 with value := tvs[j].2 } : Drv.Parsed).bit = none := hbv
+          rw [this] at hbit; cases hbit
+        | some b =>
+          have := lds_POk_bit_entry _ _ tag n impl info' hok b hbv
+          rw [hent] at this; cases this
+      · exfalso
+        have hr := lds_POk_encode_range _ _ tag n impl info' hok'
+        unfold elementsNat at herr
+        rw [if_pos hr] at herr; cases herr
+    | ok x =>
+      obtain ⟨ps', reqs⟩ := x
+      dsimp only at h
+      rcases hs : sendRequests hook { w0 with drv := d1 } [] reqs with ⟨w2, rs⟩
+      rw [hs] at h
+      dsimp only at h
+      cases rs with
+      | error e' =>
+        simp only [Prod.mk.injEq, Except.error.injEq] at h
+        obtain ⟨_, rfl⟩ := h
+        exact .inr (.inr (.inr ⟨w0, u, d1, ps', reqs, rfl, hb', .inl (lds_sendRequests_err hook reqs _ _ _ _ hs)⟩))
+      | ok rs =>
+        dsimp only at h
+        cases hf : fanOutRmw rs reqs with
+        | none =>
+          rw [hf] at h
+          simp only [Prod.mk.injEq, Except.error.injEq] at h
+          exact .inr (.inr (.inr ⟨w0, u, d1, ps', reqs, rfl, hb', .inr ⟨h.2.symm, w2, rs, hs, hf⟩⟩))
+        | some rs' =>
+          rw [hf] at h
+          dsimp only at h
+          split at h
+          · next hemp =>
+            simp only [Prod.mk.injEq, Except.error.injEq] at h
+            exact .inr (.inl ⟨by simpa using hemp, h.2.symm⟩)
+          · cases h
+
+example : (write exHook exCfg exWorld []).2 = .error (.foreign "IndexError") := by rfl
+/-- a write that is answered: the DINT and one bit of the BOOL array -/
+example : (write exLogixHook exCfg exLiveWorld [(nm "x", .int 9), (nm "d[5]", .bool true)]).2 =
+    .ok [{ tag := nm "x", value := .int 9, type := some (nm "DINT"), error := none },
+         { tag := nm "d[5]", value := .bool true, type := some (nm "BOOL"), error := none }] := by rfl
 
 end Pycomm.Lgx.Drv
